@@ -480,7 +480,8 @@ const TABLES: [&str; 3] = [
 ];
 
 /// (model, invocable, input context template; `$X` is replaced by the input variant of the operation)
-const MODEL_CALLS: [(&str, &str, &str); 35] = [
+const MODEL_CALLS: [(&str, &str, &str); 36] = [
+  ("gen", "misc", "{x: $X, s: \"m$X\"}"),
   // an invocation whose callee depends on the input; calls that leave an input or a parameter out
   ("gen", "inv2", "{x: $X}"),
   ("gen", "label", "{n: $X}"),
